@@ -118,14 +118,20 @@ theorem clearShared_core (l : List SharedErr) (e : SharedErr) :
 theorem serve_core (app : App) (st : AppState) (hr : HReq) :
     (serve app st hr).1.shared.map SharedErr.core = st.shared.map SharedErr.core := by
   unfold serve
-  simp only
-  split
-  · split
-    · split
-      · exact clearShared_core _ _
-      · exact raiseShared_core _ _ _
-    · rfl
-  · rfl
+  rfl
+
+/-- … nor anything else of them (what is raised and handed to error handlers is a copy) -/
+theorem serve_shared (app : App) (st : AppState) (hr : HReq) : (serve app st hr).1.shared = st.shared := by
+  unfold serve
+  rfl
+
+theorem foldl_shared (app : App) (hist : List HReq) (st : AppState) :
+    (hist.foldl (serve₁ app) st).shared = st.shared := by
+  induction hist generalizing st with
+  | nil => rfl
+  | cons h hs ih =>
+    simp only [List.foldl_cons]
+    rw [ih, serve₁, serve_shared]
 
 theorem foldl_core (app : App) (hist : List HReq) (st : AppState) :
     (hist.foldl (serve₁ app) st).shared.map SharedErr.core = st.shared.map SharedErr.core := by
@@ -265,15 +271,8 @@ theorem clearShared_length (l : List SharedErr) (e : SharedErr) : (clearShared l
 
 theorem serve_tb (app : App) (st : AppState) (hr : HReq) (h : TbShort st.shared) :
     TbShort (serve app st hr).1.shared ∧ (serve app st hr).1.shared.length = st.shared.length := by
-  unfold serve
-  simp only
-  split
-  · split
-    · split
-      · exact ⟨clearShared_tb _ _ h, clearShared_length _ _⟩
-      · exact ⟨raiseShared_tb _ _ _ h, raiseShared_length _ _ _⟩
-    · exact ⟨h, rfl⟩
-  · exact ⟨h, rfl⟩
+  rw [serve_shared]
+  exact ⟨h, rfl⟩
 
 /-! ### tracebacks of the application's own singletons -/
 
